@@ -380,6 +380,32 @@ pub fn gen_trainset(rng: &mut Rng) -> TrainSet {
             }
         }
     }
+    let mut rules = rules;
+    let mut seed = seed;
+    let mut corpus = corpus;
+    if rng.chance(0.3) {
+        // the word that opens the corpus gets a feature row ENDING WITH AN EMPTY CELL (`...,x,`), and every section
+        // a first rule whose pattern is exactly as long as that row: the rule applies only if the empty last cell
+        // counts as a feature, and its output repeats that last feature
+        if let Some(first) = corpus.first().and_then(|s: &Vec<(String, Vec<String>)>| s.first()).cloned() {
+            if seed.iter().any(|r| *r == first) && first.1.len() <= 6 {
+                let mut new = first.clone();
+                if new.1.last().map_or(true, |c| !c.is_empty()) {
+                    new.1.push(String::new());
+                }
+                let n = new.1.len();
+                for r in seed.iter_mut().filter(|r| **r == first) {
+                    *r = new.clone();
+                }
+                for t in corpus.iter_mut().flatten().filter(|t| **t == first) {
+                    *t = new.clone();
+                }
+                for sec in rules.iter_mut() {
+                    sec.insert(0, (vec!["*".to_string(); n], vec!["TRAIL".to_string(), "$1".to_string(), format!("${n}"), "end".to_string()]));
+                }
+            }
+        }
+    }
     let zero_cat = if rng.chance(0.2) { 1 + rng.below(ncat - 1) } else { 0 };
     TrainSet { cats, seed, unk, unigram_t, bigram_t, rules, corpus, user, max_iter: 3 + rng.below(20) as u64, lambda: *rng.pick(&[0.001, 0.01, 0.05, 0.5, 50.0]), zero_cat }
 }
